@@ -197,7 +197,7 @@ def find_next(ctx, m):
             continue
         no_match = st.le("f:match_", ZERO, 0)
         in_bound = st.le("f:offset_", "f:length_", 0)
-        last = [e["n"] for e in b["el"] if "n" in e]
+        last = [e["n"] for e in b["el"] if isinstance(e.get("n"), int) and not e.get("k")]
         r.ob(f.q, "exit after `%s`" % (f.text(last[-2]) if len(last) > 1 else "loop end"), no_match or in_bound,
              "match_ == 0" if no_match else ("offset_ <= length_" if in_bound else "neither match_ == 0 nor offset_ <= length_ is known"),
              f.loc(last[-1]) if last else "")
